@@ -37,6 +37,7 @@ def harness(prop, function, twins=(), bounded=None, tier='quick', clause=None):
 def _run_one(h, twin, timeout_s):
     run = core.Run(h.function, timeout_s=timeout_s if twin is None else min(timeout_s, 4))
     run.stop_on_failure = twin is not None
+    run.prop = h.prop
     core.RUN = run
     core.reset_fresh()
     status = 'ok'
